@@ -192,11 +192,12 @@ pub fn reference(spec: Spec, loc: &str, v: &Val) -> Result<String, String> {
 }
 
 // whole values beyond the i64 / u64 ranges included: the conversion must not go through an integer type
-pub const F64S: &[f64] = &[0.0, 0.5, 1.0, -1.5, 2000.5, 1234.5678, 1e15, 0.1, 99999.99, 1e19, -1e19, 9.3e18, 1.8446744073709552e19, 1e22, -0.0, 4503599627370496.0];
+pub const F64S: &[f64] = &[0.0, 0.5, 1.0, -1.5, 2000.5, 1234.5678, 1e15, 0.1, 99999.99, 1e19, -1e19, 9.3e18, 1.8446744073709552e19, 1e22, -0.0, 4503599627370496.0, f64::NAN, f64::INFINITY, f64::NEG_INFINITY];
 
 /// The documented conversion of an `f64`: `FixedDecimal::try_from_f64` with floating precision.
-pub fn f64_to_fixed(x: f64) -> FixedDecimal {
-    FixedDecimal::try_from_f64(x, fixed_decimal::FloatPrecision::Floating).expect("finite pool value")
+/// (`Err` for NaN and the infinities: ICU4X has no decimal for them, so there is nothing a formatter could print)
+pub fn f64_to_fixed(x: f64) -> Result<FixedDecimal, String> {
+    FixedDecimal::try_from_f64(x, fixed_decimal::FloatPrecision::Floating).map_err(|e| format!("ICU4X refuses the value {x}: {e}"))
 }
 
 pub fn reference_plural_category(ordinal: bool, loc: &str, count: u64) -> Result<&'static str, String> {
